@@ -507,6 +507,25 @@ impl LogLens {
                 };
                 json!({"ev":"poll_next","who":who,"p":p,"n":n,"auto":auto,"res":res,"r":rr})
             }
+            "poll_auto" => {
+                let who = step["who"].as_str().ok_or("poll_auto without who")?;
+                let n = step["n"].as_u64().unwrap_or(1) as u32;
+                let o = step["o"].as_u64().unwrap_or(0);
+                let r = run.inc.as_ref().unwrap().rt.block_on(async {
+                    run.client
+                        .as_ref()
+                        .unwrap()
+                        .poll_messages(&sid, &tid, Some(p), &who_consumer(who), &PollingStrategy::offset(o), n, true)
+                        .await
+                });
+                let res = res_of(&r);
+                self.reconnect_if_closed(run, &res);
+                let rr = match &r {
+                    Ok(pm) => map_msgs(run, p, &pm.messages),
+                    Err(_) => json!([]),
+                };
+                json!({"ev":"poll_auto","who":who,"p":p,"o":o,"n":n,"res":res,"r":rr})
+            }
             "del_group" | "make_group" => {
                 let who = step["who"].as_str().ok_or("group op without who")?;
                 let g = group_num(who).ok_or("not a group")?;
